@@ -22,7 +22,7 @@ RULE = {
     "thorough": "all 266 084 labelled 2-reaction networks, all 3-reaction networks with coefficients {0,1}, 4 species x 2 reactions x {0,1}, shared-pair triples and quadruples",
 }
 
-LABELS = [["A", "B", "C", "D"], ["A", "B2", "Fe", "c3x"], ["Cl2", "H2O", "e", "X10"]]
+LABELS = [["A", "B", "C", "D"], ["A", "B2", "Fe", "c3x"], ["Cl2", "H2O", "e", "X10"], ["CC(=O)O", "C=C", "A'", "CH3-CH3"]]
 COEFFS = [{1: 1, 2: 2}, {1: 1, 2: 12}, {1: 3, 2: 10}]
 IDSCHEMES = [
     (None, None),
@@ -69,10 +69,10 @@ def check(case):
     net = ec.parse_net(s)
     h = zlib.crc32(s.encode())
     raw = case.get("raw", False)
-    names = LABELS[h % 3]
-    cmap = {1: 1, 2: 2, 3: 3} if raw else COEFFS[(h // 3) % 3]
-    rules, ids = IDSCHEMES[(h // 9) % 4]
-    mols = MOLS[(h // 36) % 3]
+    names = LABELS[h % 4]
+    cmap = {1: 1, 2: 2, 3: 3} if raw else COEFFS[(h // 4) % 3]
+    rules, ids = IDSCHEMES[(h // 12) % 4]
+    mols = MOLS[(h // 48) % 3]
     H = CRNHyperGraph()
     for k, (l, r) in enumerate(net):
         H.add_rxn({names[i]: cmap[c] for i, c in enumerate(l) if c}, {names[i]: cmap[c] for i, c in enumerate(r) if c},
